@@ -83,38 +83,44 @@ func Build(quick bool) *Lattice {
 		bigS("31415926535897932384626433"), bigS("271828182845904523536028747135"), bigS("4294967296000000000000000001")}
 	var sup, res []*big.Int
 	if quick {
-		for _, k := range []int{18, 19, 20, 21, 22, 24, 26, 27, 28, 30, 32, 33} {
+		for _, k := range []int{18, 21, 24, 26, 28, 30, 33} {
 			sup = append(sup, pow10(k))
 		}
-		sup = append(sup, plus(pow10(18), 1), plus(pow10(24), -1), plus(pow10(24), 1), plus(pow10(30), -1), plus(pow10(30), 1), plus(pow10(33), -1))
-		sup = append(sup, pow2(64), plus(pow2(64), 1), pow2(80), plus(pow2(100), -1), pow2(100), plus(pow2(100), 1), plus(pow2(100), 3), pow2(109))
-		sup = append(sup, odd[:3]...)
-		for _, k := range []int{22, 23, 24, 25, 26, 28, 30, 32, 33} {
+		sup = append(sup, plus(pow10(18), 1), plus(pow10(24), -1), plus(pow10(30), 1), plus(pow10(33), -1))
+		sup = append(sup, plus(pow2(64), 1), pow2(80), plus(pow2(100), -1), pow2(100), plus(pow2(100), 3))
+		sup = append(sup, odd[:2]...)
+		for _, k := range []int{22, 25, 28, 33} {
 			res = append(res, pow10(k))
 		}
-		res = append(res, plus(pow10(22), 1), plus(pow10(26), -1), plus(pow10(26), 1), plus(pow10(30), -1), plus(pow10(33), -1))
-		res = append(res, pow2(80), plus(pow2(100), -1), pow2(100), plus(pow2(100), 1), plus(pow2(100), 3), pow2(109))
-		res = append(res, odd[:3]...)
-		l.RatioExps = []int{30, 27, 24, 21, 18, 15, 12, 9, 6, 4, 3, 2, 1}
+		res = append(res, plus(pow10(22), 1), plus(pow10(26), -1), plus(pow10(33), -1))
+		res = append(res, pow2(80), plus(pow2(100), -1), pow2(100), plus(pow2(100), 3), pow2(109))
+		res = append(res, odd[0], odd[2])
+		l.RatioExps = []int{30, 27, 24, 20, 16, 12, 9, 6, 3, 2, 1}
 		l.Fractions = [][2]int64{{1, 3}, {1, 2}, {9, 10}, {99, 100}}
 		l.NearAll = []int{6, 12}
 		l.Multiples = []int{1, 3, 6, 9}
 	} else {
 		for k := 18; k <= 33; k++ {
-			sup = append(sup, pow10(k), plus(pow10(k), -1), plus(pow10(k), 1))
+			sup = append(sup, pow10(k))
+			if k%5 == 3 {
+				sup = append(sup, plus(pow10(k), -1), plus(pow10(k), 1))
+			}
 		}
-		for k := 60; k <= 109; k += 3 {
+		for k := 60; k <= 108; k += 6 {
 			sup = append(sup, pow2(k))
 		}
 		sup = append(sup, plus(pow2(64), -1), pow2(64), plus(pow2(64), 1), plus(pow2(100), -1), pow2(100), plus(pow2(100), 1), plus(pow2(100), 3), plus(pow2(101), -1), pow2(109))
 		sup = append(sup, odd...)
 		for k := 22; k <= 33; k++ {
-			res = append(res, pow10(k), plus(pow10(k), -1), plus(pow10(k), 1))
+			res = append(res, pow10(k))
+			if k%5 == 3 || k == 22 {
+				res = append(res, plus(pow10(k), -1), plus(pow10(k), 1))
+			}
 		}
-		for k := 74; k <= 109; k += 3 {
+		for k := 76; k <= 108; k += 6 {
 			res = append(res, pow2(k))
 		}
-		res = append(res, pow2(80), plus(pow2(100), -1), pow2(100), plus(pow2(100), 1), plus(pow2(100), 3), plus(pow2(101), -1), pow2(109))
+		res = append(res, plus(pow2(100), -1), pow2(100), plus(pow2(100), 1), plus(pow2(100), 3), plus(pow2(101), -1), pow2(109))
 		res = append(res, odd...)
 		for k := 1; k <= 30; k++ {
 			l.RatioExps = append(l.RatioExps, k)
@@ -125,9 +131,9 @@ func Build(quick bool) *Lattice {
 	}
 	l.Supplies = sortedUnique(sup, pow10(18), Ten33)
 	l.Reserves = sortedUnique(res, pow10(22), Ten33)
-	l.Absolute = []*big.Int{big.NewInt(0), big.NewInt(1), big.NewInt(2), plus(pow2(53), -1), pow2(53), plus(pow2(53), 1), pow2(64), pow10(18)}
+	l.Absolute = []*big.Int{big.NewInt(0), big.NewInt(1), big.NewInt(2), pow2(53), plus(pow2(53), 1), pow10(18)}
 	if !quick {
-		l.Absolute = append(l.Absolute, big.NewInt(3), big.NewInt(1000), plus(pow2(64), -1), plus(pow2(64), 1), plus(pow2(100), 1), pow10(22))
+		l.Absolute = append(l.Absolute, big.NewInt(3), big.NewInt(1000), plus(pow2(53), -1), plus(pow2(64), -1), pow2(64), plus(pow2(64), 1), plus(pow2(100), 1), pow10(22))
 	}
 	return l
 }
@@ -193,6 +199,7 @@ type FuncStats struct {
 	Evaluations   int64   `json:"evaluations"`
 	Nontrivial    int64   `json:"nontrivial"`
 	Stage2        int64   `json:"accepted_by_conditioning_stage2"`
+	Stage2Narrow  int64   `json:"stage2_with_all_operands_below_2^100"`
 	RoundTrips    int64   `json:"round_trips"`
 	MonotonePairs int64   `json:"monotone_pairs"`
 	SellAll       int64   `json:"sell_all_points"`
@@ -270,7 +277,8 @@ func runUnit(lat *Lattice, f Func, S, R *big.Int, deadline time.Time) *unitResul
 		}
 		line := NewLine(f, S, R, a)
 		u.lines++
-		ac := AmountClass(a, X)
+		ac := WidthClass(S, R, a) + "," + AmountClass(a, X)
+		wide := WidthClass(S, R, a) != narrowOperands
 		for _, crr := range lat.Crrs {
 			r := line.Eval(crr)
 			st.Evaluations++
@@ -279,6 +287,9 @@ func runUnit(lat *Lattice, f Func, S, R *big.Int, deadline time.Time) *unitResul
 			}
 			if r.Stage2 && len(r.Broken) == 0 {
 				st.Stage2++
+				if !wide {
+					st.Stage2Narrow++
+				}
 				if r.ErrLog2 > st.WorstS2Log2 {
 					st.WorstS2Log2, st.WorstS2At = r.ErrLog2, describe(f, S, R, crr, a)
 				}
@@ -370,9 +381,10 @@ func Run(lat *Lattice, deadline time.Time, workers int) *Stats {
 		S, R *big.Int
 	}
 	var units []unit
-	for f := Func(0); f < NFuncs; f++ {
-		for _, S := range lat.Supplies {
-			for _, R := range lat.Reserves {
+	// functions innermost: a run cut short by the deadline still covers all four
+	for _, S := range lat.Supplies {
+		for _, R := range lat.Reserves {
+			for f := Func(0); f < NFuncs; f++ {
 				units = append(units, unit{f, S, R})
 			}
 		}
@@ -419,6 +431,7 @@ func Run(lat *Lattice, deadline time.Time, workers int) *Stats {
 		p.Evaluations += q.Evaluations
 		p.Nontrivial += q.Nontrivial
 		p.Stage2 += q.Stage2
+		p.Stage2Narrow += q.Stage2Narrow
 		p.RoundTrips += q.RoundTrips
 		p.MonotonePairs += q.MonotonePairs
 		p.SellAll += q.SellAll
